@@ -62,6 +62,12 @@ def v_int(ex, fr, st, args, ins):
 
 def v_float01(ex, fr, st, args, ins):
     k = len(ex.inputs)
+    if getattr(ex, 'fp_inputs', False):
+        # bit-precise binary64 input in [0,1] (excludes NaN): comparisons and products round as in IEEE 754
+        v = z3.FP('qf%d' % k, F64)
+        ex.inputs.append(('float', v))
+        st.pc = st.pc + (z3.fpGEQ(v, z3.FPVal(0.0, F64)), z3.fpLEQ(v, z3.FPVal(1.0, F64)))
+        return FFP(v)
     v = z3.Real('q%d' % k)
     ex.inputs.append(('float', v))
     st.pc = st.pc + (v >= 0, v <= 1)
